@@ -343,6 +343,35 @@ def part_saslprep(chk, quick, rnd):
         if got != want:
             chk.violation(f"saslprep:{'-'.join(s)}", f"saslprep of a string of classes {s} gave {got}, RFC 4013 {want}", {"classes": s, "text": [hex(ord(c)) for c in text]})
     chk.traces += len(emits)
+    # strings in which the MAPPING step enables a composition (a letter, an ignorable character, a combining mark): map, then NFKC
+    # (trusted unicodedata), then the spec's checks on the class string of the normalised text
+    tricky = ["e\u00ad\u0301", "a\u200b\u0308b", "o\u2060\u0302", "\u05d0\u200d\u05b7", "x\u00a0\u0301", "\u1680a\u00ad\u030a", "A\ufe00\u030a", "n\u180b\u0303o",
+              "\u0627\u00ad\u0653\u0628", "e\u0301\u00ad", "\u00ade\u0301", "c\u200c\u0327\u0301"]
+    tg = {}
+    for text in tricky:
+        mapped = "".join(" " if stringprep.in_table_c12(c) else c for c in text if not stringprep.in_table_b1(c))
+        norm = unicodedata.normalize("NFKC", mapped)
+        tg[text] = (tuple(classify(c) for c in norm), norm)
+    wdt = VERIF / "out" / "work" / "C11_sasl_tricky_in"
+    wdt.mkdir(parents=True, exist_ok=True)
+    tkeys = sorted({k for k, _ in tg.values() if k})
+    (wdt / "groups.json").write_text(json.dumps([list(k) for k in tkeys]))
+    rt = tlc.run_instance("MC_SaslPrep", dict(Mode="groups", MaxLen=0), name="C11_saslprep_tricky", coverage=False, timeout=3000, env={"TRACE_FILE": str(wdt / "groups.json")})
+    chk.add_tlc("MC_SaslPrep: verdicts for strings whose mapping enables a composition", rt)
+    tv = {tuple(e["s"]): e["res"] for e in rt.emits}
+    tv[()] = "ok"
+    for text, (key, norm) in tg.items():
+        chk.count(("saslprep-tricky", key))
+        chk.action("saslprep")
+        try:
+            got = ["ok", saslprep(text)]
+        except ValueError:
+            got = ["ValueError", None]
+        except Exception as ex:
+            got = [type(ex).__name__, None]
+        want = [tv[key], norm if tv[key] == "ok" else None]
+        if got != want:
+            chk.violation("saslprep:map-then-normalise", f"saslprep of {[hex(ord(c)) for c in text]} gave {got}, RFC 4013 (map, then NFKC) gives {want}", {"text": [hex(ord(c)) for c in text]})
     # every code point singly (thorough: all; quick: a stride) - grouped by the class string of the mapped+normalised text
     groups = {}
     step = 1 if not quick else 7
